@@ -1,5 +1,5 @@
 """C10 - ungrouping grouped notes restores the original note stream (structural clauses)."""
-from ..rules import notes, records, grouping
+from ..rules import notes, records, grouping, baseline
 
 EXPLANATION = (
     "Static rule checking of ungroup_notes: R-REBUILD the head Note copies every field of the NoteWithTail, the tail Note takes "
@@ -48,6 +48,9 @@ def sweep(ctx):
 
 sweep.thorough_only = True
 
+def c_api(ctx):
+    baseline.surface(ctx, "C10: documented surface", modules=['simfile.notes.group', 'simfile.notes'])
+
 CLAUSES = [
     ("C10.1", "rebuilt notes carry every field (R-REBUILD)", c1),
     ("C10.2", "no tail is lost; tails released in order (R-ORDER)", c2),
@@ -55,4 +58,5 @@ CLAUSES = [
     ("C10.4", "the heap order is the note position order (R-CMP, shared with C07)", c4),
     ("C10.5", "the forward direction (group_notes): filter before joining, nothing lost, joined head keeps its fields (shared with C09)", c5),
     ("C10.sweep", "package-wide census of record constructions and enum dispatches (thorough)", sweep),
+    ("C10.api", "public surface: signatures and defaults, constants, enumerations, blank templates, base classes as confirmed (R-API)", c_api),
 ]
